@@ -258,3 +258,4 @@ def xproc_shard(spec, res, rng):
 
 def replay(w, res):
     res.inconc("C18 replay: re-run the shard kind named in the witness")
+
